@@ -195,9 +195,10 @@ class State:
         self.mem = mem = Mem()
         total, nl = c["total"], c["nl"]
         Rp = c["Rp"]
-        self.inputs0 = dict(radius=[f * Rp for f in c["frac"]], density=[sp.Symbol(f"rho_{k}", positive=True) for k in range(total)],
-                            gravity=[sp.Symbol(f"g_{k}", positive=True) for k in range(total)], bulk=[sp.Symbol(f"K_{k}", positive=True) for k in range(total)],
-                            shear=[(sp.Symbol(f"mu_{k}") if c.get("analytic") else Cx(sp.Symbol(f"mu_{k}_re", positive=True), sp.Symbol(f"mu_{k}_im", real=True))) for k in range(total)])
+        a_ = c.get("input_scale") or sp.Integer(1)
+        self.inputs0 = dict(radius=[f * Rp * a_ for f in c["frac"]], density=[sp.Symbol(f"rho_{k}", positive=True) for k in range(total)],
+                            gravity=[sp.Symbol(f"g_{k}", positive=True) * a_ for k in range(total)], bulk=[sp.Symbol(f"K_{k}", positive=True) * a_ ** 2 for k in range(total)],
+                            shear=[(sp.Symbol(f"mu_{k}") * a_ ** 2 if c.get("analytic") else Cx(sp.Symbol(f"mu_{k}_re", positive=True) * a_ ** 2, sp.Symbol(f"mu_{k}_im", real=True) * a_ ** 2)) for k in range(total)])
         self.arrays = {}
         for nm in ("radius", "density", "gravity", "bulk", "shear"):
             blk = Block(mem, "input", total, nm + "_array")
@@ -211,8 +212,8 @@ class State:
         self.incomp_blk = Block(mem, "input", nl, "is_incomp")
         self.incomp_blk.data = [k[2] for k in kinds]
         self.upper_blk = Block(mem, "input", nl, "upper_radius")
-        self.upper_blk.data = list(c["upper"])
-        self.start_calls, self.solver_builds, self.zgesv_calls, self.collapse_calls, self.surface_calls = [], [], [], [], []
+        self.upper_blk.data = [u * a_ for u in c["upper"]]
+        self.start_calls, self.solver_builds, self.zgesv_calls, self.collapse_calls, self.surface_calls, self.solves = [], [], [], [], [], []
         self.solution_obj = None
         self.ex = None
 
@@ -261,10 +262,27 @@ class State:
                 st.success = not (fl is not None and st.layer_i == fl[0] and st.k == fl[1])
                 st.message = "injected integration failure" if not st.success else "ok"
                 blk = Block(self.mem, "cyrk", st.layer_slices * st.nyd, f"cyrk_solution[layer{st.layer_i}][sol{st.k}]")
+                y0 = [st.y0.get(q) for q in range(st.nyd)]
+                rec = dict(layer=st.layer_i, sol=st.k, y0=y0, s=sp.Integer(1))
+                self.solves.append(rec)
+                rel = c.get("relative_to")       # relational contract: rows of this run = s * D^-1 * rows of the base run (s from the initial vectors)
+                Dv = None
+                if rel is not None:
+                    base = [x for x in rel["solves"] if x["layer"] == st.layer_i and x["sol"] == st.k]
+                    Dv = rel["D"](st.layer_i)
+                    if base:
+                        for q in range(0, st.nyd, 2):
+                            nrm = rel.get("norm") or (lambda e_: e_)
+                            bq = nrm(sp.sympify(base[0]["y0"][q]))
+                            if bq != 0 and q // 2 < len(Dv):
+                                rec["s"] = sp.cancel(sp.together(nrm(sp.sympify(y0[q]) * Dv[q // 2]) / bq))
+                                break
                 for s_ in range(st.layer_slices):
                     for q in range(st.nyd):
                         if s_ == 0:
-                            blk.data[q] = st.y0.get(q)          # CyRK contract: the first output row is the initial vector
+                            blk.data[q] = y0[q]          # CyRK contract: the first output row is the initial vector
+                        elif rel is not None:
+                            blk.data[s_ * st.nyd + q] = (rec["s"] * sp.Symbol(f"SOL_{st.layer_i}_{st.k}_{s_}_{q // 2}") / Dv[q // 2]) if (q % 2 == 0 and q // 2 < len(Dv)) else sp.Integer(0)
                         elif c["sol_contract"] is not None:
                             blk.data[s_ * st.nyd + q] = c["sol_contract"](st.layer_i, st.k, s_, q)
                         elif c.get("analytic"):
@@ -291,7 +309,13 @@ class State:
         info_ptr.set(0, sp.Integer(self.cfg["zgesv_info"]))
         if self.cfg["zgesv_info"] != 0:
             return
-        if self.cfg.get("analytic"):
+        rel = self.cfg.get("relative_to")
+        if rel is not None:
+            # constants of this run = constants of the base run divided by the per-solution normalisation of the surface layer's solutions
+            top = self.cfg["nl"] - 1
+            sc_ = {x["sol"]: x["s"] for x in self.solves if x["layer"] == top}
+            cvec = [Cx(sp.Symbol(f"c{k0}_{j}") / sc_.get(j, 1), 0) for j in range(n)]
+        elif self.cfg.get("analytic"):
             cvec = [Cx(sp.Symbol(f"c{k0}_{j}"), 0) for j in range(n)]
         else:
             cvec = [Cx(sp.Symbol(f"c{k0}_{j}_re", real=True), sp.Symbol(f"c{k0}_{j}_im", real=True)) for j in range(n)]
@@ -359,7 +383,7 @@ class State:
             return dict(radius_array=self.arrays["radius"], density_array=self.arrays["density"], gravity_array=self.arrays["gravity"], bulk_modulus_array=self.arrays["bulk"],
                         complex_shear_modulus_array=self.arrays["shear"], frequency=c["freq"], planet_bulk_density=c["rho_b"], layer_types=names,
                         is_static_by_layer=tuple(k[1] for k in kinds)[:mm.get("static", nl)], is_incompressible_by_layer=tuple(k[2] for k in kinds)[:mm.get("incomp", nl)],
-                        upper_radius_by_layer=tuple(c["upper"])[:mm.get("upper", nl)], degree_l=c["l"], solve_for=c["solve_for"], use_kamata=c["use_kamata"],
+                        upper_radius_by_layer=tuple(u * (c.get("input_scale") or 1) for u in c["upper"])[:mm.get("upper", nl)], degree_l=c["l"], solve_for=c["solve_for"], use_kamata=c["use_kamata"],
                         integration_method=c["integration_method"], nondimensionalize=c["nondim"], verbose=False, warnings=False, raise_on_fail=c["raise_on_fail"])
         return dict(total_slices=sp.Integer(c["total"]), radius_array_ptr=P0(self.arrays["radius"]), density_array_ptr=P0(self.arrays["density"]),
                     gravity_array_ptr=P0(self.arrays["gravity"]), bulk_modulus_array_ptr=P0(self.arrays["bulk"]), complex_shear_modulus_array_ptr=P0(self.arrays["shear"]),
@@ -370,7 +394,7 @@ class State:
 
 def run_solver(b, stack, solve_for=("tidal",), nondim=True, slices_per_layer=4, fail_layer=None, zgesv_info=0, raise_on_fail=False, use_kamata=True,
                degree=None, extra_pre=(), start_contract=None, sol_contract=None, upper_radius_bad=False, entry="cf", total_override=None,
-               layer_type_names=None, integration_method="RK45", mismatch=None, start_raises=False, analytic=False):
+               layer_type_names=None, integration_method="RK45", mismatch=None, start_raises=False, analytic=False, input_scale=None, relative_to=None):
     """analytic=True: complex quantities (moduli, starting vectors, integrated solutions, zgesv constants) are single complex atoms instead of (re, im)
     pairs; sound for the repository code executed here because it is complex-analytic in them (its only .real/.imag sites split a value and
     recombine it unchanged - those sites are covered by the pair mode).
@@ -386,7 +410,7 @@ def run_solver(b, stack, solve_for=("tidal",), nondim=True, slices_per_layer=4, 
     cfg = dict(stack=list(stack), nl=nl, ns=ns, total=total, Rp=Rp, rho_b=sp.Symbol("rho_bulk", positive=True), freq=sp.Symbol("frequency", positive=True),
                l=degree if degree is not None else R("l"), frac=frac, upper=upper, kinds=[LAYER_KINDS[k] for k in stack], solve_for=solve_for, nondim=nondim,
                fail_layer=fail_layer, zgesv_info=zgesv_info, raise_on_fail=raise_on_fail, use_kamata=use_kamata, start_contract=start_contract, sol_contract=sol_contract,
-               entry=entry, analytic=analytic, start_raises=start_raises, layer_type_names=layer_type_names, integration_method=integration_method, mismatch=mismatch)
+               entry=entry, analytic=analytic, input_scale=input_scale, relative_to=relative_to, start_raises=start_raises, layer_type_names=layer_type_names, integration_method=integration_method, mismatch=mismatch)
     inline = {}
     for rel, names in INLINED:
         for nm in names:
